@@ -16,7 +16,7 @@
 (* keyperimpl/snapshot/trigger.go, gnosisaccessnode/decryptionkeyshandler.go*)
 (* p2p/message.go, p2pmsg/messages.go.                                     *)
 (*                                                                         *)
-(* A CASE c = [fl, topic, m, bytes, recv]:                                 *)
+(* A CASE c = [fl, topic, m, bytes, recv, mode]:                           *)
 (*  fl     node flavour                                                    *)
 (*  topic  the subscribed topic the delivery arrives on                    *)
 (*  m      the structured message class (type m.ty; m.ty # topic: a        *)
@@ -28,6 +28,23 @@
 (*         "ready" (keyper set 1 known, receiver member, DKG succeeded,    *)
 (*         collator / eon rows present), "primed" (ready + keys, one share *)
 (*         and T-1 signatures stored so that handlers take their long paths)*)
+(*                                                                         *)
+(*  mode   how the delivery is executed (the code-shaped outcome does not   *)
+(*         depend on it):                                                  *)
+(*         "handle"  combined validator, then P2PMessaging.Handle          *)
+(*         "send"    combined validator, then the whole P2PMessaging.handle*)
+(*                   (Handle + SendMessage of every message a handler      *)
+(*                   returns) on a P2PNode whose libp2p Publish FAILS:     *)
+(*                   SendMessage uses retry.NumberOfRetries(0), so it      *)
+(*                   returns after the single failed attempt, handle logs  *)
+(*                   the error and returns; the handling loop goes on      *)
+(*         "stress"  the delivery is validated by 8 goroutines at once     *)
+(*                   while the node's state feeder (access node: Storage.  *)
+(*                   AddEonKey / AddKeyperSet, as chain sync does) runs;   *)
+(*                   the storage is mutex protected, so every validation   *)
+(*                   sees one of the (equal) states: same outcome; a       *)
+(*                   process that dies (Go's fatal "concurrent map read    *)
+(*                   and map write") is observed as panic                  *)
 (*                                                                         *)
 (* Message classes (fields are class names; "valid" always means made by   *)
 (* the concretiser with the real keys over exactly the message's fields):  *)
